@@ -15,6 +15,9 @@ pub trait Fam: Serialize + DeserializeOwned + PartialEq + Debug + G + 'static {
     const NAME: &'static str;
     /// contains an f32 somewhere (known finding F11 concerns these)
     const HAS_F32: bool = false;
+    /// 0 = no byte-buffer positions; 1 = the root; 2 = every element of the root array /
+    /// every value of the root object; 3 = elements 0 and 2 of the root array
+    const BYTES_AT: u8 = 0;
 }
 
 // ---- floats compared by bits -------------------------------------------------------------
@@ -432,8 +435,8 @@ impl G for Tree {
 }
 
 macro_rules! family {
-    ($( $idx:literal => $t:ty : $name:literal $(, f32=$f32:literal)? ;)*) => {
-        $( impl Fam for $t { const NAME: &'static str = $name; $(const HAS_F32: bool = $f32;)? } )*
+    ($( $idx:literal => $t:ty : $name:literal $(, f32=$f32:literal)? $(, bytes=$bytes:literal)? ;)*) => {
+        $( impl Fam for $t { const NAME: &'static str = $name; $(const HAS_F32: bool = $f32;)? $(const BYTES_AT: u8 = $bytes;)? } )*
         pub const N_TYPES: usize = 0 $(+ { let _ = $idx; 1 })*;
         pub trait FamVisitor { fn visit<T: Fam>(&mut self); }
         pub fn dispatch<V: FamVisitor>(idx: usize, v: &mut V) {
@@ -498,7 +501,7 @@ family! {
     46 => Floats : "Floats", f32=true;
     47 => Wide : "Wide";
     48 => Enums : "Enums";
-    49 => serde_bytes::ByteBuf : "ByteBuf";
+    49 => serde_bytes::ByteBuf : "ByteBuf", bytes=1;
     50 => Vec<F32> : "Vec<f32>", f32=true;
     51 => BTreeMap<i8, Vec<External>> : "BTreeMap<i8,Vec<External>>";
     52 => usize : "usize";
@@ -509,4 +512,7 @@ family! {
     57 => (F64, F64) : "(f64,f64)";
     58 => Vec<(String, u8)> : "Vec<(String,u8)>";
     59 => BTreeMap<String, Untagged> : "BTreeMap<String,Untagged>";
+    60 => Vec<serde_bytes::ByteBuf> : "Vec<ByteBuf>", bytes=2;
+    61 => BTreeMap<String, serde_bytes::ByteBuf> : "BTreeMap<String,ByteBuf>", bytes=2;
+    62 => (serde_bytes::ByteBuf, String, serde_bytes::ByteBuf) : "(ByteBuf,String,ByteBuf)", bytes=3;
 }
